@@ -74,9 +74,10 @@ RunResult run_w5(const Plan& pl) {
         if (outcome == "ok") {
             if (cells.size() != (size_t)n) res.fail("C13", "cell_count", "initialisation returned another number of cells than the input holds");
             for (size_t k = 0; k < cells.size() && res.viol.empty(); k++) {
-                cell& c = *cells[k]; TopoOpts o; o.volume_before = 1e300; std::string e = check_topology(c, o);
+                cell& c = *cells[k]; TopoOpts o; o.t7_volume = false; std::string e = check_topology(c, o);
                 if (!e.empty()) { res.fail("C13", "handed_over_" + e.substr(0, e.find(':')), "cell " + std::to_string(k) + " handed to the solver: " + e); break; }
                 CellView v = view_of(c); Geo g = geometry(v); CellView rv; rv.pos = ref[k].V; rv.nused.assign(ref[k].V.size(), 1); rv.tri = ref[k].F; rv.fused.assign(ref[k].F.size(), 1);
+                { double Ld = (g.bmax - g.bmin).norm(); if (g.volume < -1e-6 * Ld * Ld * Ld) { std::ostringstream d; d << "cell " << k << " handed to the solver is inside-out (signed volume " << g.volume << ", diameter " << Ld << ")"; res.fail("C13", "handed_over_inside_out", d.str()); break; } if (!(g.volume > 1e-6 * Ld * Ld * Ld)) res.probes.hit("flat_cell_handed_over_coarse"); }   // a (near) zero volume sheet is judged by the volume clause where fidelity applies (l_min <= size/4) CellView rv; rv.pos = ref[k].V; rv.nused.assign(ref[k].V.size(), 1); rv.tri = ref[k].F; rv.fused.assign(ref[k].F.size(), 1);
                 Geo gi = geometry(rv); double relv = std::fabs(g.volume - vol[k]) / vol[k];
                 { uint64_t ppm = (uint64_t)(relv * 1e6); auto& q = res.probes.c["vol_err_ppm_max"]; q = std::max(q, ppm); }
                 if (tri_on && rho > 0.25 + 1e-9) res.probes.hit("fidelity_not_judged_coarse");
